@@ -29,6 +29,9 @@ static void overide_opd_size(struct instr *all_instr, unsigned int *rm) {
     *rm = *rm & SET_WORD;
   else if (all_instr->keyword.is_dword)
     *rm = *rm & SET_DWORD;
+  else if (all_instr->keyword.is_qword)
+    // the operand is 64 bits wide whatever the width of the address registers
+    *rm = *rm | reg64;
 }
 
 static unsigned int get_vector_rex_prefix(struct instr *all_instr, asm_reg m,
